@@ -84,6 +84,10 @@ fn trace_one(case: &Value, ranges: &[(u64, u64)]) -> Result<(u64, u64, String), 
                 ready_left: script.ready_in,
                 events: std::sync::Arc::new(std::sync::Mutex::new(Vec::with_capacity(8))),
             };
+            if get_bool(case, "tracelog") {
+                // a logger enabled at Trace level: lazily evaluated log arguments are now evaluated
+                crate::leak::start();
+            }
             libc::raise(libc::SIGSTOP);
             let out = block_on(scratchstack_aws_signature::sigv4_validate_request(
                 req, &region, &service, &mut provider, now, &reqs, opts,
